@@ -271,7 +271,7 @@ pub fn run_c04(a: &Args) {
     for n in 0..a.cases {
         let (mut plan, secret) = full_plan(&mut rng, n % 5 == 0);
         plan.routing = routing_steps(&mut rng);
-        plan.enc = match n % 9 { 0 => EncKind::Garbage, 1 => EncKind::GarbageToken, 2 => EncKind::SecretLen(*rng.pick(&[0usize, 1, 15, 17, 100])), _ => EncKind::Honest };
+        plan.enc = match n % 9 { 0 => EncKind::Garbage, 1 => EncKind::GarbageToken, 2 => EncKind::SecretLen(*rng.pick(&[0usize, 1, 15, 17, 100])), 3 => EncKind::TokenPrefix(*rng.pick(&[0usize, 1, 4, 31, 33])), _ => EncKind::Honest };
         let v = routed_verdicts(&mut rng, &plan, false);
         let mut sc = scenario(&mut rng, &plan, secret.clone(), vec![], v);
         sc.max_len = if n % 16 == 4 { *rng.pick(&[64, 300, 2048]) } else { *rng.pick(&[10_000, 10_000, 300, 64, 100_000]) };
@@ -330,6 +330,7 @@ pub fn run_c04(a: &Args) {
         let o = exec(&sc);
         let mut why = vec![];
         if o.panicked { why.push("handler panicked".into()); }
+        if o.result == "hang" { why.push("the handler did not settle within 20 s of real time on this input (busy loop or dead-lock): it neither ended the connection nor waited for input".into()); }
         let bound = 4 * (sc.max_len as usize + 5) + 65_536;
         if o.max_alloc > bound { why.push(format!("single allocation of {} bytes requested (configured maximum frame {} bytes; bound {bound})", o.max_alloc, sc.max_len)); }
         if sc.steps.iter().any(|s| matches!(s, Step::Eof)) && o.result == "running" { why.push("handler still running after the client's end of stream".into()); }
